@@ -20,15 +20,34 @@ size_t vh_core_inbuf_len(void)
     return evbuffer_get_length(iauth_in);
 }
 
+/* The callback of the per-request timers, learnt from the events themselves (not from the name or signature of the daemon's handler, which a refactoring
+ * may change): whatever callback a live request's timer event carries. */
+static event_callback_fn vh_req_timer_cb;
+
+static void vh_learn_timer_cb(void)
+{
+    struct set_node *n;
+    for (n = set_first(iauth_reqs); n; n = set_next(n)) {
+        struct iauth_request *r = set_node_data(n);
+        if (r->timeout)
+            vh_req_timer_cb = event_get_callback(r->timeout);
+    }
+}
+
 /* Fires the request timer of client `id` now, as libevent's one-shot timer would: the event is
- * removed from the timer heap first, then the handler runs.  Returns 0 if no timer is pending. */
+ * removed from the timer heap first, then its callback runs.  Returns 0 if no timer is pending. */
 int vh_core_fire_timeout(int id)
 {
     struct iauth_request *req = set_find(iauth_reqs, &id);
+    event_callback_fn cb;
+    void *arg;
     if (!req || !req->timeout || !evtimer_pending(req->timeout, NULL))
         return 0;
+    cb = event_get_callback(req->timeout);
+    arg = event_get_callback_arg(req->timeout);
+    vh_req_timer_cb = cb;
     event_del(req->timeout);
-    iauth_timeout(-1, EV_TIMEOUT, req);
+    cb(-1, EV_TIMEOUT, arg);
     return 1;
 }
 
@@ -50,7 +69,7 @@ static int vh_timer_cb(const struct event_base *base, const struct event *ev, vo
 {
     struct vh_timer_audit *a = arg;
     (void)base;
-    if (event_get_callback(ev) == iauth_timeout) {
+    if (vh_req_timer_cb && event_get_callback(ev) == vh_req_timer_cb) {
         struct set_node *n;
         int found = 0;
         a->n++;
@@ -71,7 +90,7 @@ static int vh_orphan_cb(const struct event_base *base, const struct event *ev, v
 {
     const struct event **out = arg;
     (void)base;
-    if (event_get_callback(ev) == iauth_timeout && !*out) {
+    if (vh_req_timer_cb && event_get_callback(ev) == vh_req_timer_cb && !*out) {
         struct set_node *n;
         int found = 0;
         for (n = set_first(iauth_reqs); n; n = set_next(n))
@@ -85,11 +104,16 @@ static int vh_orphan_cb(const struct event_base *base, const struct event *ev, v
 int vh_core_fire_orphan(void)
 {
     const struct event *ev = NULL;
+    event_callback_fn cb;
+    void *arg;
+    vh_learn_timer_cb();
     event_base_foreach_event(ev_base, vh_orphan_cb, &ev);
     if (!ev)
         return 0;
+    cb = event_get_callback(ev);
+    arg = event_get_callback_arg(ev);
     event_del((struct event *)ev);
-    iauth_timeout(-1, EV_TIMEOUT, event_get_callback_arg(ev));
+    cb(-1, EV_TIMEOUT, arg);
     return 1;
 }
 
@@ -113,6 +137,7 @@ static const char *vh_table_audit(void)
 void vh_core_dump_head(FILE *f)
 {
     struct vh_timer_audit a = { 0, 0 };
+    vh_learn_timer_cb();
     event_base_foreach_event(ev_base, vh_timer_cb, &a);
     fprintf(f, "{\"t\":\"core\",\"serial\":%u,\"nreq\":%u,\"allocs\":%lu,\"frees\":%lu,\"datafrees\":%lu,\"inbuf\":%zu,"
                "\"need\":%u,\"policies\":%u,\"timeout\":%u,\"timers\":%d,\"orphan_timers\":%d,\"table\":\"%s\",\"clean_exit\":%d}\n",
